@@ -13,8 +13,9 @@ Oracle: independent tokenizer-based normaliser and brute-force window model (vf/
  K count       K == number of non-overlapping places the reported block occurs at; K-1 locations are named; K >= o
  C complete    every occurrence of every window of d ordinary-statement lines shared by >= o places is covered
  E empty       no shared window in the model -> no dry violation at all
-Known deviations of the tool are modelled explicitly (deviant normaliser): a failure carries a "dev:" signature only
-if the deviation explains it exactly.
+Known deviations of the tool are modelled explicitly (bent normaliser in vf/oracle/c03_drynorm.py, two output-stage
+deviations here): a failing case gets "dev:<name>" signatures only if the whole case passes once the model is bent in
+exactly those ways (smallest set first); anything else keeps its own signature and is a VIOLATION.
 """
 from __future__ import annotations
 
@@ -33,12 +34,15 @@ TECHNIQUE = ("Hypothesis-generated multi-file projects with planted duplicate ru
              "tokenizer-based normaliser and brute-force window model (soundness, mutuality, count, completeness, emptiness)")
 RULE = (
     "case = 2-6 files (py | ts | js | ts+js) of functions/methods/module code built from unique filler and planted runs "
-    "(sub-slices of 1-4 pool runs of 1-9 single-line statements, each place with its own nesting, blank lines, comments, "
-    "trailing comments, inner spacing, CRLF), near-run variants, min_duplicate_lines 2-6 (config or --min-lines), "
-    "min_occurrences 2-4 (global or per-language), storage memory|tempfile, paths '.' or the file list. "
-    "Non-trivial: the model has at least one duplicate group at (d,o) AND the project also holds a shared run that must "
-    "NOT be reported (shorter than d, fewer than o places, or a near-run). Distinct = (language, d, o, multiset of "
-    "(run length, places, same-file?) of the planted runs, near-run kinds)."
+    "(whole or sub-slices of 1-5 pool runs of 1-9 single-line statements; each place has its own nesting 0-2 blocks, blank "
+    "lines, whole-line and trailing comments (#, //, /* */, JSDoc), widened inner spacing, optional CRLF, optional periodic "
+    "repetition, optionally at the very end of a body/file), near-run variants that differ only inside `//`, '#', 'http://' "
+    "or #private tokens or by a block closing mid-run, min_duplicate_lines 2-6 (config or --min-lines), min_occurrences 2-4 "
+    "(global or per-language), storage memory|tempfile, paths '.' or the file list. Run 0 is usually forced to be a "
+    "positive (>= d lines at >= o places) and an extra run a negative (d-1 lines, or o-1 places). "
+    "Non-trivial: the reference model has at least one duplicate group at (d,o) AND the project also holds a shared run "
+    "that must NOT be reported (shared 2-line window outside every group, or a near-run). Distinct = (language, d, o, "
+    "multiset of (run length, places, same-file?) of the planted runs, near-run kinds, split?)."
 )
 ASSUMPTIONS = [
     "all statements are single physical lines; no imports, logger calls, decorators, class-field areas, multi-line calls, "
@@ -46,8 +50,11 @@ ASSUMPTIONS = [
     "min_duplicate_tokens is set to 1 so the documented (but unimplemented) token threshold cannot matter",
     "detect_duplicate_constants is false (constant findings share the rule id but are a different feature)",
     "'covered' is the weak reading: some reported block overlaps the place (the tool may report sub-windows of a long run)",
-    "lone closing braces always sit between project-unique lines, so no shared window contains one except in the "
-    "deliberate 'split' near-run; completeness is demanded only for windows made of ordinary statements",
+    "a lone closing brace borders pool statements only at the end of a tail-less function body or in the deliberate "
+    "'split' near-run; completeness is demanded only for windows made of ordinary statements, emptiness only when the "
+    "line-level model has no shared window at all (so both readings of 'ordinary statements' agree)",
+    "mutuality uses the statement's 'covered' (overlapped by a reported block of that file), not 'is itself a finding'; "
+    "exact-start mismatches are only counted (label mutual-inexact)",
     "strings contain no whitespace; inner-spacing variants only widen existing spaces",
     "one language per project (ts and js may mix); per-language min_occurrences only in single-language projects",
     "in-process CLI equals a fresh process; cross-checked on the first cases of every run",
@@ -200,7 +207,8 @@ def observe(case, files):
 #
 # Each name is one root cause = one known-finding signature "dev:<name>".  A failing case is attributed to deviations
 # only if the whole case passes when the model is bent in exactly those ways; whatever is left is an unknown failure.
-OUTPUT_DEVIATIONS = ("overlap-filter-later-span", "two-stage-overlap-gap")
+# order matters for attribution: a miss that the two-stage model alone reproduces is not blamed on the overlap formula
+OUTPUT_DEVIATIONS = ("two-stage-overlap-gap", "overlap-filter-later-span")
 
 
 def applicable_deviations(langs) -> list:
